@@ -262,6 +262,9 @@ func (f *fields) del(name string) bool {
 	_, exists := f.d[name]
 	if exists {
 		delete(f.d, name)
+		if len(f.d) == 0 {
+			f.d = nil
+		}
 	}
 	return exists
 }
